@@ -482,6 +482,15 @@ A3Build(p) == Prog(<<Def("a", Obj1),
                     \* member reads through two and three prototype links (`get` lives on a only)
                     Log(MemberN(Var("c"), "get")), Log(MemberN(Var("r"), "get")), Log(MemberN(Var("c"), "n"))>>)
 
+\* <<"a4", o, al>>: a pipeline into a MEMBER of an object (own, or found through the prototype chain):
+\* x !> o->m(a) is m(x, a) like every pipeline - the member is looked up, the object is not passed
+A4o == << Var("a"), Var("b") >>
+A4Params == { <<"a4", o, al>> : o \in Idx(A4o), al \in Idx(A2l) }
+A4Build(p) == Prog(<<Def("a", ObjN(<< <<"n", I(1)>>,
+                                     <<"get", Fn(<<Param("p"), ParamD("k", I(7)), ParamD("b", I(8))>>, ListN(<<Var("p"), Var("k"), Var("b")>>))>> >>)),
+                    Def("b", ObjN(<< <<"_proto_", Var("a")>>, <<"n", I(5)>> >>)),
+                    Blk(<<Log(Pipe(I(4), MemberN(A4o[p[2]], "get"), A2l[p[3]]))>>, << <<All, Log(S("c"))>> >>, << >>)>>)
+
 \* <<"s6", k>>: defaults per call, four scope levels, closures over variables,
 \* composition, mutual recursion, handler selection across frames
 S6Progs == <<
@@ -550,7 +559,7 @@ S7Progs == <<
          Log(Call(Var("f"), << >>)), Log(Var("x"))>>) >>
 S7Params == { <<"s7", k>> : k \in Idx(S7Progs) }
 
-ScopeParams(u) == S7Params \cup S6Params \cup S1Params \cup S2Params \cup S3Params \cup S4Params \cup S5Params \cup A1Params \cup A2Params \cup A3Params
+ScopeParams(u) == S7Params \cup S6Params \cup S1Params \cup S2Params \cup S3Params \cup S4Params \cup S5Params \cup A1Params \cup A2Params \cup A3Params \cup A4Params
 
 Build(p) ==
   CASE p[1] = "e6" -> E6Progs[p[2]] [] p[1] = "e7" -> E7Progs[p[2]] [] p[1] = "e5" -> E5Build(p) [] p[1] = "e4" -> E4Build(p) [] p[1] = "e1" -> E1Build(p) [] p[1] = "e2" -> E2Build(p) [] p[1] = "e3" -> E3Build(p)
@@ -561,5 +570,5 @@ Build(p) ==
     [] p[1] = "cp" -> CpBuild(p) [] p[1] = "mc" -> McBuild(p)
     [] p[1] = "s1" -> S1Build(p) [] p[1] = "s2" -> S2Build(p) [] p[1] = "s3" -> S3Build(p)
     [] p[1] = "s4" -> S4Build(p) [] p[1] = "s5" -> S5Build(p)
-    [] p[1] = "a1" -> A1Build(p) [] p[1] = "a2" -> A2Build(p) [] p[1] = "a3" -> A3Build(p)
+    [] p[1] = "a1" -> A1Build(p) [] p[1] = "a2" -> A2Build(p) [] p[1] = "a3" -> A3Build(p) [] p[1] = "a4" -> A4Build(p)
 =============================================================================
